@@ -19,12 +19,14 @@ BOUNDS = {
         dict(name="wide", minlen=0, maxlen=2, maxk=3, depth=0, gk=0, types=treex.TYPES, gtypes=()),
         dict(name="wide3", minlen=3, maxlen=3, maxk=2, depth=0, gk=0, types=treex.TYPES, gtypes=()),
         dict(name="nested", minlen=1, maxlen=2, maxk=2, depth=1, gk=1, types=T3, gtypes=("", "string")),
+        dict(name="deep", minlen=1, maxlen=2, maxk=1, depth=2, gk=1, types=T3, gtypes=("", "string")),
     ],
     "thorough": [
         dict(name="wide", minlen=0, maxlen=3, maxk=3, depth=0, gk=0, types=treex.TYPES, gtypes=()),
         dict(name="wide4", minlen=4, maxlen=4, maxk=2, depth=0, gk=0, types=treex.TYPES, gtypes=()),
         dict(name="nested", minlen=1, maxlen=3, maxk=2, depth=1, gk=1, types=T3, gtypes=("", "string")),
-        dict(name="nested2", minlen=1, maxlen=2, maxk=2, depth=1, gk=2, types=T3, gtypes=("", "string", "x")),
+        dict(name="nested2", minlen=1, maxlen=3, maxk=1, depth=1, gk=2, types=T3, gtypes=("", "string", "x")),
+        dict(name="deep", minlen=1, maxlen=3, maxk=1, depth=2, gk=1, types=T3, gtypes=("", "string")),
     ],
 }
 STREAM_FAMS = ["mix", "concat", "net", "shell", "ctx"]
